@@ -13,7 +13,7 @@ import (
 )
 
 func init() {
-	register(&Rule{ID: "E-DISPATCH", Props: []string{"C01", "C17", "C02", "C05"}, Floor: 100,
+	register(&Rule{ID: "E-DISPATCH", Props: []string{"C01", "C17", "C02", "C05", "C20"}, Floor: 100,
 		Doc: "the node types the parser constructs are exactly the cases of the evaluator's type switch (same pointer/value form); every case hands the node's children, evaluated in declaration order against the enclosing current node and scope, to the helper that implements that node; the Current variant of a node calls the same helper with the current node in place of the evaluated child and the corresponding fields in the same positions",
 		Run: ruleEDispatch})
 	register(&Rule{ID: "E-EVAL-ONCE", Props: []string{"C09", "C06"}, Floor: 100,
@@ -282,6 +282,29 @@ func ruleEDispatch(p *Program, r *Reporter) {
 		}
 		if ci.helper != want {
 			r.Bad(ci.clause.Pos(), key, "dispatches to "+ci.helper+" but the helper implementing "+base+" is "+want)
+			continue
+		}
+		// exactly one value-producing return: a second one is a fast path that bypasses the helper
+		nret := 0
+		for _, st := range ci.clause.Body {
+			ast.Inspect(st, func(m ast.Node) bool {
+				if _, isLit := m.(*ast.FuncLit); isLit {
+					return false
+				}
+				if ret, ok := m.(*ast.ReturnStmt); ok {
+					if !(len(ret.Results) == 2 && exprStr(ret.Results[0]) == "nil" && exprStr(ret.Results[1]) == "err") {
+						nret++
+					}
+				}
+				return true
+			})
+		}
+		wantRet := 1
+		if ci.name == "ProjectArrayNode" {
+			wantRet = 2 // the string bypass, checked by E-NODESETS
+		}
+		if nret != wantRet {
+			r.Bad(ci.clause.Pos(), key, fmt.Sprintf("the case has %d value-producing returns (expected %d): a path produces the result without going through %s, so the two forms can drift apart", nret, wantRet, want))
 			continue
 		}
 		if base == "NotEqual" != ci.negated {
